@@ -6,14 +6,23 @@ package main
 //  which 7  one path     case = (#path limit #data)
 //  which 8  several      case = ((#path limit) ... #data)
 //  obs = (validIn validOut (0 #out)|(2 #site)|(3) ((index strlen valid exists isString) ...))
+//
+// The model (coq/Model/Decoders/JsonCut.v) takes gjson's Index and len(Str) from the observable and finds the raw
+// (escaped) text of the string itself; the verdict (coq/Model/Decoders/Entry.v json_cut_run) is
+//   Violates  panic / guard bytes touched / a valid document became invalid (encoding/json) / the output is not the
+//             input with nothing but the named strings shortened to a prefix of their raw text (json_cut_framed)
+//   Differ    only the number of kept bytes differs from the model's
 
 import (
 	"bytes"
 	"encoding/json"
+	"fmt"
+	"strings"
 	"sync"
 	"unicode"
 
 	"github.com/ozontech/file.d/decoder"
+	"github.com/tidwall/gjson"
 
 	"verif/harness/hmain"
 	"verif/harness/hx"
@@ -56,10 +65,55 @@ func execJSONCutManyWith(cs hx.Sx, shared decoder.Decoder) hx.Sx {
 	return hx.L(hx.Bool(vin), hx.Bool(vout), out, hx.L(groups...))
 }
 
+// rawEnd is the model's json_raw_len on the Go side: the length of the text between the quote at doc[index] and the
+// first quote that is not preceded by an unpaired backslash (-1: none).
+func rawEnd(doc []byte, index int) int {
+	if index < 0 || index >= len(doc) || doc[index] != '"' {
+		return -1
+	}
+	for i := index + 1; i < len(doc); i++ {
+		switch doc[i] {
+		case '"':
+			return i - index - 1
+		case '\\':
+			i++
+		}
+	}
+	return -1
+}
+
+// the two facts about gjson the model relies on, checked on every generated document
+func checkGjson(c *hmain.Ctx, doc, path string) {
+	if path == "" || !gjson.Valid(doc) {
+		return
+	}
+	v := gjson.GetBytes([]byte(doc), path)
+	if !v.Exists() || v.Type != gjson.String {
+		return
+	}
+	c.W.Oracle("gjson: for a string value, Raw is the text from the quote at Index to the first quote not preceded by an unpaired backslash",
+		rawEnd([]byte(doc), v.Index) == len(v.Raw)-2 && v.Index+len(v.Raw) <= len(doc) && doc[v.Index:v.Index+len(v.Raw)] == v.Raw,
+		fmt.Sprintf("%q %s", doc, path))
+	c.W.Oracle("gjson: len(Str) <= len(Raw)-2 (unescaping never lengthens)", len(v.Str) <= len(v.Raw)-2, fmt.Sprintf("%q %s", doc, path))
+}
+
+func unescapedLen(doc, path string) int {
+	v := gjson.Get(doc, path)
+	if v.Type != gjson.String {
+		return -1
+	}
+	return len(v.Str)
+}
+
 func genJSONCut(c *hmain.Ctx) {
 	r := c.R
-	// exhaustive: the value of "a" is every concatenation of up to 4 raw pieces, every limit 0..6
-	pieces := []string{"a", "b", "\xc3\xa9", `\\`, `\"`, `\n`, `é`}
+	do1 := func(stream, path string, limit int, doc string, nontrivial bool) {
+		checkGjson(c, doc, path)
+		c.Do(stream, 7, hx.L(hx.S(path), hx.I(limit), hx.S(doc)), nontrivial)
+	}
+	// exhaustive: the value of "a" is every concatenation of up to 3 (thorough: 4) raw pieces - plain bytes, UTF-8, two-byte
+	// escapes, \uXXXX, a surrogate pair - with every limit 0..len(raw)+1
+	pieces := []string{"a", "\xc3\xa9", `\\`, `\"`, `\n`, `é`, `😀`}
 	maxN := 3
 	if c.Tier == "thorough" {
 		maxN = 4
@@ -70,8 +124,9 @@ func genJSONCut(c *hmain.Ctx) {
 			stream = "json-cut-escaped"
 		}
 		doc := `{"x":"pre","a":"` + string(v) + `","b":[1,"a"]}`
-		for limit := 0; limit <= 6; limit++ {
-			c.Do(stream, 7, hx.L(hx.S("a"), hx.I(limit), hx.S(doc)), len(v) > limit)
+		ul := unescapedLen(doc, "a")
+		for limit := 0; limit <= len(v)+1; limit++ {
+			do1(stream, "a", limit, doc, ul > limit)
 		}
 	})
 	c.W.Count("json_cut_exhaustive_max_pieces")
@@ -93,7 +148,53 @@ func genJSONCut(c *hmain.Ctx) {
 		}
 		return string(b)
 	}
+	hex4 := func(lo, hi int) string {
+		s := fmt.Sprintf("%04x", r.Range(lo, hi))
+		if r.Bool() {
+			s = strings.ToUpper(s)
+		}
+		return s
+	}
+	// one escape sequence of a JSON string
+	escape := func() string {
+		switch r.Intn(10) {
+		case 0, 1, 2, 3:
+			return `\` + string(`"\/bfnrt`[r.Intn(8)])
+		case 4, 5:
+			return `\u` + hex4(0, 0xd7ff) // one to three bytes when unescaped
+		case 6:
+			return `\u` + hex4(0xe000, 0xffff)
+		case 7, 8:
+			return `\u` + hex4(0xd800, 0xdbff) + `\u` + hex4(0xdc00, 0xdfff) // surrogate pair: 12 raw bytes, 4 unescaped
+		default:
+			return `\u` + hex4(0xd800, 0xdfff) // lone surrogate: valid JSON text, unescapes to U+FFFD
+		}
+	}
+	// raw (escaped) content of a valid JSON string, n tokens
+	esc := func(lo, hi int) string {
+		var b strings.Builder
+		for n := r.Range(lo, hi); n > 0; n-- {
+			switch r.Intn(5) {
+			case 0, 1:
+				b.WriteString(escape())
+			case 2:
+				b.WriteString(hx.Pick(r, []string{"\xc3\xa9", "\xe2\x82\xac", "\xf0\x9f\x98\x80", "u", "uu0041", "/"}))
+			default:
+				b.WriteString(plain(1, 3))
+			}
+		}
+		return b.String()
+	}
 	q := func(s string) string { b, _ := json.Marshal(s); return string(b) }
+	// a quoted value: half of them with escape sequences
+	val := func(lo, hi int) (quoted string, rawLen int) {
+		if r.Bool() {
+			s := esc(lo/2, hi/2)
+			return `"` + s + `"`, len(s)
+		}
+		s := q(plain(lo, hi))
+		return s, len(s) - 2
+	}
 	for i := 0; i < 3000*c.Scale; i++ {
 		a, f := plain(0, 20), plain(0, 12)
 		var doc, path string
@@ -111,19 +212,72 @@ func genJSONCut(c *hmain.Ctx) {
 		default:
 			doc, path = `{"a":`+q(a)+`,"b":`+q(f)+`}`, "a"
 		}
-		limit := r.Intn(24)
-		c.Do("json-cut-random", 7, hx.L(hx.S(path), hx.I(limit), hx.S(doc)), true)
+		do1("json-cut-random", path, r.Intn(24), doc, true)
 	}
-	// several paths at once (the sorted, mutex-protected way)
-	for i := 0; i < 1500*c.Scale; i++ {
-		a, b2, f := plain(0, 16), plain(0, 16), plain(0, 10)
-		doc := `{"a":` + q(a) + `,"o":{"f":` + q(f) + `,"g":7},"b":` + q(b2) + `}`
-		ps := []hx.Sx{hx.L(hx.S("a"), hx.I(r.Intn(18))), hx.L(hx.S("b"), hx.I(r.Intn(18)))}
+	// escapes anywhere in the limited string, every shape of document, limits 0..len(raw)+1
+	for i := 0; i < 4000*c.Scale; i++ {
+		raw, f := esc(0, 8), esc(0, 4)
+		var doc, path string
+		switch r.Intn(7) {
+		case 0:
+			doc, path = `{"a":"x","o":{"f":"`+raw+`","g":"`+f+`"}}`, "o.f"
+		case 1:
+			doc, path = `{"`+f+`":"`+f+`","a":"`+raw+`"}`, "a" // escapes in an earlier key and value
+		case 2:
+			doc, path = ` { "k" : 1 , "a" :  "`+raw+`" , "z":"`+f+`" } `, "a"
+		case 3:
+			doc, path = `{"l":["`+f+`","`+raw+`",3]}`, "l.1"
+		case 4:
+			doc, path = `{"a":"`+raw+`"`, "a" // invalid document: untouched
+		case 5:
+			doc, path = `"`+raw+`"`, "@this" // the document is the string
+		default:
+			doc, path = `{"a":"`+raw+`","b":"tail"}`, "a"
+		}
+		limit := r.Intn(len(raw) + 2)
+		stream := "json-cut-escaped"
+		if strings.IndexByte(raw, '\\') < 0 {
+			stream = "json-cut-random"
+		}
+		do1(stream, path, limit, doc, unescapedLen(doc, path) > limit)
+	}
+	// an escape sequence exactly at / around the limit: plain prefix of n bytes, one escape, a tail; limits n-1 .. n+len+1
+	for i := 0; i < 250*c.Scale; i++ {
+		pre, e, tail := plain(0, 7), escape(), esc(0, 3)
+		raw := pre + e + tail
+		doc := `{"a":"` + raw + `","b":"` + tail + `"}`
+		ul := unescapedLen(doc, "a")
+		for limit := len(pre) - 1; limit <= len(pre)+len(e)+1; limit++ {
+			if limit >= 0 {
+				do1("json-cut-escaped", "a", limit, doc, ul > limit)
+			}
+		}
+	}
+	// strings the validators refuse (bare control character, unknown escape, short \u, bare quote): untouched
+	for i := 0; i < 300*c.Scale; i++ {
+		bad := hx.Pick(r, []string{"\x01", "\n", `\x`, `\u12`, `\u12g4`, `"`, `\`, `\'`})
+		raw := esc(0, 3) + bad + esc(0, 3)
+		doc := `{"a":"` + raw + `","b":"tail"}`
+		do1("json-cut-invalid", "a", r.Intn(len(raw)+2), doc, true)
+	}
+	// several paths at once (the sorted, mutex-protected way), escapes in several fields
+	for i := 0; i < 2500*c.Scale; i++ {
+		a, la := val(0, 16)
+		b2, lb := val(0, 16)
+		f, lf := val(0, 10)
+		doc := `{"a":` + a + `,"o":{"f":` + f + `,"g":7},"b":` + b2 + `}`
+		ps := []hx.Sx{hx.L(hx.S("a"), hx.I(r.Intn(la+2))), hx.L(hx.S("b"), hx.I(r.Intn(lb+2)))}
 		if r.Bool() {
-			ps = append(ps, hx.L(hx.S("o.f"), hx.I(r.Intn(12))))
+			ps = append(ps, hx.L(hx.S("o.f"), hx.I(r.Intn(lf+2))))
 		}
 		if r.Chance(1, 4) {
 			ps = append(ps, hx.L(hx.S("o.g"), hx.I(0)))
+		}
+		if r.Chance(1, 8) {
+			ps = append(ps, hx.L(hx.S("missing"), hx.I(r.Intn(4))))
+		}
+		for _, p := range []string{"a", "b", "o.f"} {
+			checkGjson(c, doc, p)
 		}
 		c.Do("json-cut-multi", 8, hx.L(append(ps, hx.S(doc))...), true)
 	}
@@ -141,8 +295,11 @@ func genJSONCut(c *hmain.Ctx) {
 		cases := make([][]hx.Sx, G)
 		for g := 0; g < G; g++ {
 			for i := 0; i < perG; i++ {
-				a, b2, f := plain(0, 24), plain(0, 24), plain(0, 12)
-				doc := `{"pad":` + q(plain(0, 30)) + `,"a":` + q(a) + `,"o":{"f":` + q(f) + `,"g":7},"b":` + q(b2) + `}`
+				a, _ := val(0, 24)
+				b2, _ := val(0, 24)
+				f, _ := val(0, 12)
+				pad, _ := val(0, 30)
+				doc := `{"pad":` + pad + `,"a":` + a + `,"o":{"f":` + f + `,"g":7},"b":` + b2 + `}`
 				cases[g] = append(cases[g], hx.L(hx.L(hx.S("a"), hx.I(la)), hx.L(hx.S("b"), hx.I(lb)), hx.L(hx.S("o.f"), hx.I(lf)), hx.S(doc)))
 			}
 		}
@@ -176,20 +333,6 @@ func genJSONCut(c *hmain.Ctx) {
 				c.W.Case("json-cut-shared-decoder", 8, cs, obs[g][i], true)
 			}
 		}
-	}
-	// escapes anywhere in the limited string (known finding: positions come from the unescaped length)
-	for i := 0; i < 1000*c.Scale; i++ {
-		raw := ""
-		for n := r.Range(1, 8); n > 0; n-- {
-			raw += hx.Pick(r, []string{"a", "bc", `\\`, `\"`, `\n`, `\t`, `é`, `\/`, "\xc3\xa9"})
-		}
-		doc := `{"a":"` + raw + `","b":"tail"}`
-		nontrivial := bytes.IndexByte([]byte(raw), '\\') >= 0
-		stream := "json-cut-escaped"
-		if !nontrivial {
-			stream = "json-cut-random"
-		}
-		c.Do(stream, 7, hx.L(hx.S("a"), hx.I(r.Intn(10)), hx.S(doc)), nontrivial)
 	}
 	// negative limits are a configuration error (rejected by extractJsonParams after the repair)
 	for i := 0; i < 300*c.Scale; i++ {
